@@ -267,7 +267,9 @@ def parameter(kind):
                 # Otherwise, just overwrite it. Note if dict is passed empty, it clears
                 # the whole dict.
                 else:
-                    setattr(self, prop, val)
+                    # Store a copy of dicts, so that the in-place update above can never
+                    # modify an object owned by the caller (or by another instance).
+                    setattr(self, prop, dict(val) if isinstance(val, dict) else val)
 
                 # Make sure children are updated
                 if kind != "switch" or doset:
